@@ -43,6 +43,7 @@ type Contract struct {
 	Consumes []string // parameters of linear type that are NOT consumed (borrowed) are listed in Borrows
 	Borrows  []string
 	CallAssume map[string][]Clause
+	CallGhost  map[string][]GhostSet
 	ExitGhost []GhostSet // ghost assignments performed at every return, before the postconditions are checked
 	Fresh    bool // results of linear type are fresh owned resources (default true)
 	Opts     map[string]string
@@ -194,7 +195,7 @@ func (cs *ContractSet) loadContractFile(path, pkg string) error {
 		}
 		switch kw {
 		case "ghost", "pure", "ufunc", "const", "monotone", "atomic", "linear", "typeinv", "typestep", "lockhavoc", "func", "iface", "extern", "lemma", "axiom",
-			"arith", "requires", "ensures", "modifies", "loop", "inline", "trusted", "borrows", "opt", "package", "exitghost", "callassume":
+			"arith", "requires", "ensures", "modifies", "loop", "inline", "trusted", "borrows", "opt", "package", "exitghost", "callassume", "callghost":
 			if err := flush(); err != nil {
 				return err
 			}
@@ -444,6 +445,33 @@ func (cs *ContractSet) addClause(cur **Contract, pkg, kw, rest, where string) er
 			} else {
 				c.Opts[f[0]] = strings.Join(f[1:], " ")
 			}
+		case "callghost":
+			// callghost <callee> g(x) := e : ghost initialisation of an object this
+			// function has just allocated, performed right before it is handed to
+			// <callee>; x and e are written over the callee's parameter names. It
+			// takes effect only if x is fresh (allocated during this call).
+			f := strings.Fields(rest)
+			body := strings.TrimSpace(strings.TrimPrefix(rest, f[0]))
+			i := strings.Index(body, ":=")
+			if len(f) < 2 || i < 0 {
+				return fmt.Errorf("%s: malformed callghost", where)
+			}
+			tgt, err := parseSpec(body[:i])
+			if err != nil {
+				return fmt.Errorf("%s: %v", where, err)
+			}
+			val, err := parseSpec(body[i+2:])
+			if err != nil {
+				return fmt.Errorf("%s: %v", where, err)
+			}
+			call, ok := tgt.(SCall)
+			if !ok || len(call.Args) == 0 {
+				return fmt.Errorf("%s: callghost target must be g(x)", where)
+			}
+			if c.CallGhost == nil {
+				c.CallGhost = map[string][]GhostSet{}
+			}
+			c.CallGhost[f[0]] = append(c.CallGhost[f[0]], GhostSet{Target: tgt, Val: val, Cond: SCall{Fun: "fresh", Args: []SExpr{call.Args[0]}}, Src: body})
 		case "callassume":
 			// callassume <callee> <expr>: an ASSUMPTION made just before calls to
 			// <callee> inside this function (facts the verifier cannot derive,
